@@ -104,6 +104,8 @@ structure FinRel (s5 s8 : State) (m : Nat) (v : Int) (saved : Option Nat) : Prop
   effD : ∀ i, i ≠ m → (s8.get i).dirty = true → (s5.get i).dirty = true ∨
     (i ∈ (s5.get m).subs ∧ saved ≠ some i ∧ (s5.get m).ver < (s8.get m).ver)
   flags : FlagRel s5 s8
+  logx : LogExt QuietEv s5 s8
+  runs_m : (s8.get m).runs = (s5.get m).runs
 
 theorem finish_inv {p : Prog} {s5 s8 : State} {m : Nat} {v : Int} {saved : Option Nat}
     (h5 : InvR p s5) (loc : RunLoc s5 m) (fr : FinRel s5 s8 m v saved)
@@ -292,6 +294,11 @@ theorem finish_frame {p : Prog} {s5 s8 : State} {m : Nat} {v : Int} {saved : Opt
     · exact .inl h
     · exact .inr ⟨m, (h5.edge m i).1 h.1, h.2.2⟩
   flags := fr.flags
+  logx := fr.logx.mono (fun ev hev i hi => absurd hi (hev.2 i))
+  runsx := RunsX.of_quiet fr.logx (fun i => by
+    by_cases hi : i = m
+    · subst hi; exact fr.runs_m
+    · exact (Node.core_fields (fr.go i hi).1).2.2.2.2.2.2.2.2)
 
 /-- store the new value (with the observer restored) -/
 def storeVal (s : State) (id : Nat) (old : Option Int) (saved : Option Nat) (v : Int) : State :=
@@ -379,7 +386,13 @@ theorem finishRun_rel {p : Prog} {s5 : State} {m : Nat} (f : Nat) (old : Option 
         · subst hi; rw [g7m]; exact ⟨rfl, rfl, rfl⟩
         · rw [g7o i hi]; exact ⟨rfl, rfl, rfl⟩
       exact h57.trans sp.flags
-    refine ⟨⟨?_, ?_, ?_, ?_, ?_, st8m, ?_, ?_, ?_, ?_, ?_, ?_, ?_, ?_, hfl8⟩, hch.symm, fun _ => by rw [verm]; omega, ?_, ?_⟩
+    have hlx8 : LogExt QuietEv s5 s8 := by
+      have h57 : LogExt QuietEv s5 s7e := by
+        subst hs7e
+        exact ⟨[.changed m], by simp [log7], fun ev hev => by
+          rw [List.mem_singleton.1 hev]; exact ⟨by intro i; simp, by intro i; simp⟩⟩
+      exact h57.trans sp.rel.logx
+    refine ⟨⟨?_, ?_, ?_, ?_, ?_, st8m, ?_, ?_, ?_, ?_, ?_, ?_, ?_, ?_, hfl8, hlx8, by rw [sp.rel.runs, ge, g7m]⟩, hch.symm, fun _ => by rw [verm]; omega, ?_, ?_⟩
     · rw [sp.rel.len]; subst hs7e; exact len7
     · rw [sp.rel.obs]; exact obs7e
     · intro hl
@@ -416,7 +429,7 @@ theorem finishRun_rel {p : Prog} {s5 : State} {m : Nat} (f : Nat) (old : Option 
   · rw [if_neg hch]
     have hch' : (old != some v) = false := by simpa using hch
     refine ⟨⟨len7, obs7, fun hl i => by rw [log7]; exact hl i, by rw [g7m], by rw [g7m], by rw [g7m],
-      by rw [g7m], by rw [g7m], by rw [g7m], by rw [g7m], ver7, ?_, ?_, ?_, ?_⟩, hch'.symm, ?_, ?_, ?_⟩
+      by rw [g7m], by rw [g7m], by rw [g7m], by rw [g7m], ver7, ?_, ?_, ?_, ?_, LogExt.of_eq log7, by rw [g7m]⟩, hch'.symm, ?_, ?_, ?_⟩
     · intro i hi; rw [g7o i hi]; exact ⟨rfl, .inl rfl⟩
     · intro i hi hne; rw [g7o i hi] at hne; exact absurd rfl hne
     · intro i hi hd; rw [g7o i hi] at hd; exact .inl hd
@@ -570,7 +583,7 @@ theorem runMemo_spec {p : Prog} (hp : MemoOK p) {f : Nat} (hu : UpdOK p (upd p f
   have h8 := finish_inv ep.inv ep.loc fr hrep' hsaved hH
   have fr58 := finish_frame ep.inv ep.loc fr
   have hver5 : (s5.get m).ver = (s0.get m).ver := ep.ver.trans (t.ver m)
-  refine ⟨h8, fr05.trans fr58, fr.obs, ?_, fun _ => fr.st_m, fr.subs_m.trans hsubs5, ?_, ?_, ?_⟩
+  refine ⟨h8, fr05.trans fr58, fr.obs, ?_, fun _ => fr.st_m, fr.subs_m.trans hsubs5, ?_, ?_, ?_, ?_⟩
   · intro i
     by_cases hi : i = m
     · subst hi; rw [hr]; exact fr.running_m
@@ -619,6 +632,26 @@ theorem runMemo_spec {p : Prog} (hp : MemoOK p) {f : Nat} (hu : UpdOK p (upd p f
         have : m = i := Option.some.inj h'
         exact absurd this.symm him
       · rw [t.go i him] at h'; exact .inr (.inr h')
+  · -- every node ran at most once
+    intro i
+    simp only
+    by_cases him : i = m
+    · subst him
+      right
+      have h54 : (s5.get i).runs = (s4.get i).runs := by
+        rcases ep.runRel i with h' | h'
+        · exact h'
+        · exact absurd h'.2.1 (ep.inv.runNC i ep.loc.kind ep.loc.running)
+      refine ⟨by rw [fr.runs_m, h54, t.gm], fr.st_m, hst⟩
+    · have h85 : (s8.get i).runs = (s5.get i).runs :=
+        (Node.core_fields (fr.go i him).1).2.2.2.2.2.2.2.2
+      have h40 : (s4.get i).runs = (s0.get i).runs := t.runs i him
+      rcases ep.runRel i with h' | h'
+      · exact .inl (by rw [h85, h', h40])
+      · refine .inr ⟨by rw [h85, h'.1, h40], ?_, by rw [← t.st]; exact h'.2.2⟩
+        rcases (fr.go i him).2 with h'' | h''
+        · rw [h'']; exact h'.2.1
+        · exact absurd h'.2.1 h''.2.1
 
 /-! ## the `any` loop of `needs_update` -/
 
@@ -631,6 +664,7 @@ structure AnyPost (p : Prog) (s : State) (m : Nat) (l : List Nat) (r : State × 
     (r.1.get m).st ≠ .dirty
   just : r.2 = true → (r.1.get m).runs ≠ 0 → ∃ e ∈ (r.1.get m).seen, (r.1.get e.1).ver ≠ e.2.2
   valCh : ValCh s r.1
+  runRel : RunRel s r.1
 
 theorem anySrc_spec {p : Prog} {u : State → Nat → State × Bool} {f : Nat} (hu : UpdOK p u f)
     {m : Nat} (hmf : m ≤ f) : ∀ (l : List Nat) (s : State), InvR p s → (s.get m).kind = .memo →
@@ -642,7 +676,7 @@ theorem anySrc_spec {p : Prog} {u : State → Nat → State × Bool} {f : Nat} (
   | nil =>
     intro s h _ _ _ hnd _
     exact ⟨h, Frame.refl s m, rfl, fun _ => rfl, fun _ => ⟨fun _ hx => (by cases hx), hnd⟩,
-      fun hc => (by cases hc), ValCh.of_val_eq (fun _ => rfl)⟩
+      fun hc => (by cases hc), ValCh.of_val_eq (fun _ => rfl), RunRel.of_eq (fun _ => rfl)⟩
   | cons x l ih =>
     intro s h hk hr hlow hnd hl
     have hxs : x ∈ (s.get m).sources := hl x List.mem_cons_self
@@ -665,7 +699,8 @@ theorem anySrc_spec {p : Prog} {u : State → Nat → State × Bool} {f : Nat} (
     have hsrc1 : (s1.get m).sources = (s.get m).sources := cf.2.2.1
     by_cases hc : (ch || (true && (s1.get m).st == .dirty)) = true
     · rw [if_pos hc]
-      refine ⟨hp.inv, fr1, hp.obs, hp.running, fun h' => (by cases h'), fun _ hruns => ?_, hp.valCh⟩
+      refine ⟨hp.inv, fr1, hp.obs, hp.running, fun h' => (by cases h'), fun _ hruns => ?_, hp.valCh,
+        hp.runRel⟩
       simp only at hruns ⊢
       by_cases hch : ch = true
       · have hv : (s.get x).ver < (s1.get x).ver := hp.ver hch
@@ -694,7 +729,8 @@ theorem anySrc_spec {p : Prog} {u : State → Nat → State × Bool} {f : Nat} (
       generalize anySrc u true m l s1 = r2 at ih'
       refine ⟨ih'.inv, fr1.trans ih'.frame, ih'.obs.trans hp.obs,
         fun i => (ih'.running i).trans (hp.running i), fun h2 => ?_, ih'.just,
-        hp.valCh.trans ih'.valCh fr1 ih'.frame hp.obs⟩
+        hp.valCh.trans ih'.valCh fr1 ih'.frame hp.obs,
+        hp.runRel.trans ih'.runRel (fun i hi => (fr1.clean i hi).1) (fun i hi => (ih'.frame.clean i hi).1)⟩
       have a2 := ih'.allClean h2
       refine ⟨fun y hy hky => ?_, a2.2⟩
       rcases List.mem_cons.1 hy with rfl | hy
@@ -781,10 +817,12 @@ theorem restamp_spec {p : Prog} {s : State} {m : Nat} (h : InvR p s) (hk : (s.ge
     · subst hi; rw [gm]
     · rw [go i hi]
   refine ⟨hinv, ?_, hobs, fun i => (cf i).2.2.2.2.2.1, fun _ => stm, (cf m).2.2.2.1, fun hc => (by cases hc),
-    fun o _ _ hd => .inl (by rw [← dE]; exact hd), ValCh.of_val_eq (fun i => (cf i).2.1)⟩
+    fun o _ _ hd => .inl (by rw [← dE]; exact hd), ValCh.of_val_eq (fun i => (cf i).2.1),
+    RunRel.of_eq (fun i => (cf i).2.2.2.2.2.2.2.2)⟩
   refine ⟨hlen, fun i => (cf i).1, ?_, fun i => by rw [(cf i).2.2.2.2.2.2.2.1]; exact Nat.le_refl _,
     fun i _ => (cf i).2.2.2.2.2.2.2.1, ?_, fun hl i => (by rw [hlog]; exact hl i), fun i _ => hcore i,
-    fun i _ hd => .inl (by rw [← dE]; exact hd), ?_⟩
+    fun i _ hd => .inl (by rw [← dE]; exact hd), ?_, LogExt.of_eq hlog,
+    RunsX.of_quiet (LogExt.of_eq hlog) (fun i => (cf i).2.2.2.2.2.2.2.2)⟩
   · intro i hi
     refine ⟨?_, (cf i).2.1⟩
     by_cases him : i = m
@@ -863,7 +901,8 @@ theorem upd_step {p : Prog} (hp : MemoOK p) {f : Nat} (hu : UpdOK p (upd p f) f)
         exact ⟨post.inv, fr1.trans post.frame, post.obs.trans ap.obs,
           fun i => (post.running i).trans (ap.running i), fun _ => post.clean hk1,
           post.subs.trans cf.2.2.2.1, fun hc => (by rw [← cf.2.2.2.2.2.2.2.1]; exact post.ver hc),
-          hobsD r2.1 post.frame post.obsD, ap.valCh.trans post.valCh fr1 post.frame ap.obs⟩
+          hobsD r2.1 post.frame post.obsD, ap.valCh.trans post.valCh fr1 post.frame ap.obs,
+          ap.runRel.trans post.runRel (fun i hi => (fr1.clean i hi).1) (fun i hi => (post.frame.clean i hi).1)⟩
       · rw [if_neg hn]
         have hn' : need = false := by simpa using hn
         have ac := ap.allClean hn'
@@ -874,7 +913,8 @@ theorem upd_step {p : Prog} (hp : MemoOK p) {f : Nat} (hu : UpdOK p (upd p f) f)
         exact ⟨post.inv, fr1.trans post.frame, post.obs.trans ap.obs,
           fun i => (post.running i).trans (ap.running i), fun _ => post.clean hk1,
           post.subs.trans cf.2.2.2.1, fun hc => (by cases hc), hobsD s2 post.frame post.obsD,
-          ap.valCh.trans post.valCh fr1 post.frame ap.obs⟩
+          ap.valCh.trans post.valCh fr1 post.frame ap.obs,
+          ap.runRel.trans post.runRel (fun i hi => (fr1.clean i hi).1) (fun i hi => (post.frame.clean i hi).1)⟩
   · have hk' : ((s.get m).kind != .memo) = true := by
       cases hkk : (s.get m).kind <;> simp_all
     rw [hk']
